@@ -46,6 +46,8 @@ def _cases(tier):
                 items.append((g, (0, 1)))
         for g in enum_O(3, max_edges=3):
             items.append((g, (2,)))
+        for g in enum_O(4, max_edges=4):
+            items.append((g, "wy"))
     else:
         for n in (2, 3):
             for g in enum_L(n):
@@ -58,7 +60,10 @@ def _cases(tier):
 def shards(tier):
     # one work item per shard, heaviest (largest K, most nodes) first for load balance
     items = _cases(tier)
-    order = sorted(range(len(items)), key=lambda i: (-max(items[i][1]), -len(items[i][0].nodes), i))
+    order = sorted(
+        range(len(items)),
+        key=lambda i: (-(1 if items[i][1] == "wy" else max(items[i][1])), -len(items[i][0].nodes), i),
+    )
     return [(i, i + 1) for i in order]
 
 
@@ -66,7 +71,8 @@ def describe(tier):
     return {
         "bound": (
             "O(2), O(3) name-ordered ADMGs with K<=1 source domains (all 19 (Z,W) specs per domain at n=3); "
-            "O(3, <=3 edges) with K=2 (all ordered pairs of specs)"
+            "O(3, <=3 edges) with K=2 (all ordered pairs of specs); O(4, <=4 edges) with one source domain whose surrogate "
+            "outcomes are the target outcomes and whose experiment is a single node"
             if tier == "quick"
             else "L(2), L(3) all labelled ADMGs with K<=2 (all ordered pairs of domain specs); O(4, <=4 edges) with K<=1"
         )
@@ -182,8 +188,13 @@ def explore_graph(res: Res, g: G, ks, tier, seed, only=None):
     models_star.append(("W3", SCM(g, card={tern: 3}, salt=f"s{seed}")))
     specs = domain_specs(g.nodes)
     for x, y in disjoint_pairs(g.nodes):
-        for k in ks:
-            for doms in itt.product(specs, repeat=k):
+        if ks == "wy":
+            groups = [[((z,), y)] for z in g.nodes if z not in y]
+        else:
+            groups = [doms for k in ks for doms in itt.product(specs, repeat=k)]
+        for doms in groups:
+            k = len(doms)
+            if True:
                 case = {
                     "graph": g.to_json(),
                     "X": list(x),
